@@ -103,12 +103,20 @@ def run(ctx):
         same = rng.choice([1, 2])
         specs = [simlib.rand_spec(rng, [-1], [same]) for _ in range(ncells)]     # equal counts: all backends accept
         ncomp = sum(s.n for s in specs)
-        ne = rng.randint(1, 5)
+        ne = rng.randint(3, 5) if ci % 2 == 0 else rng.randint(1, 5)
+        # every second network: the rows of some synapse type are NOT contiguous in .edges
+        # (e.g. [A, B, A]) and its synapses post onto different compartments
+        tys = [rng.choice(SYN) for _ in range(ne)]
+        posts = [None] * ne
+        if ci % 2 == 0 and ncomp >= 2:
+            a, b = rng.sample(SYN, 2)
+            tys[:3] = [a, b, a]
+            posts[0], posts[2] = rng.sample(range(ncomp), 2)
         edges = []
         for e in range(ne):
             pre = rng.randrange(ncomp)
-            post = rng.choice([pre, rng.randrange(ncomp), rng.randrange(ncomp)])      # autapses and fan-in happen
-            ty = rng.choice(SYN)
+            post = posts[e] if posts[e] is not None else rng.choice([pre, rng.randrange(ncomp), rng.randrange(ncomp)])   # autapses, fan-in
+            ty = tys[e]
             if ty == "IonotropicSynapse":
                 params = {"gS": rng.choice([1, 2, 5]) * 1e-4, "e_syn": rng.choice([0.0, -75.0, 10.0]), "k_minus": rng.choice([0.025, 0.1])}
             elif ty == "TestSynapse":
